@@ -109,6 +109,14 @@ class VdirStore(Store):
                 removed.remove(name)
             if name in self._fname_to_uid and self._fname_to_uid[name][0] == etag:
                 continue
+            if name in self._fname_to_uid:
+                # The file changed: forget the UID it used to have
+                old_uid = self._fname_to_uid[name][1]
+                if (
+                    old_uid is not None
+                    and self._uid_to_fname.get(old_uid, (None,))[0] == name
+                ):
+                    del self._uid_to_fname[old_uid]
             fi = open_by_extension(
                 self._get_raw(name, etag), name, self.extra_file_handlers
             )
